@@ -203,6 +203,8 @@ func c06MoreShares(r *Run) {
 	r.Shared("C06.R11", func() {
 		r.Rule("C01.R5")
 		c01LogLeaf(r)
+		r.Rule("C01.R6")
+		c01ChainHandedOn(r)
 	})
 }
 
